@@ -162,6 +162,8 @@ class ConvergenceMonitor(Monitor):
                 if s not in cbs:
                     return core.Violation('%s post-heal submission %d never got its callback (group %r)' % (self.prop, s, group),
                                           sig='post-heal-no-callback')
+                if cbs[s][1] == 1 and cfg.qsize < 100:
+                    continue    # small queue limit: the submissions of one round may overflow it (QUEUE_FULL is an answer)
                 if cbs[s][1] != 0:
                     return core.Violation('%s post-heal submission %d answered with error %r (group %r)' % (
                         self.prop, s, cbs[s][1], group), sig='post-heal-not-success')
